@@ -144,7 +144,7 @@ class ReqPathRun(object):
         for i, r in enumerate(plan['requests']):
             if r.get('scripts'):
                 w.fc.scripts[i] = [dict(b) for b in r['scripts']]
-        if line_funcs and (plan.get('line_p') or plan.get('points') or plan.get('focus_stall')):
+        if line_funcs and (plan.get('line_p') or plan.get('points') or plan.get('focus_stall') or plan.get('deep_stalls')):
             sim.enable_line_preemption(line_funcs(w), p=plan.get('line_p', 0), points=plan.get('points', 0),
                                        est_lines=80 * (len(plan['requests']) + 1))
 
